@@ -61,7 +61,7 @@ Example tiny_foreign : foreign_of tiny = Some ([FTop (G_FILE, zeros 64); FExt HE
 Proof. vm_compute. reflexivity. Qed.
 Example tiny_saved_foreign : exists f', asf_save tiny [mkA N_TITLE (VText [72; 105]) None None] cb_default = Ok f' /\
   foreign_of f' = foreign_of tiny.
-Proof. eexists. split; vm_compute; reflexivity. Qed.
+Proof. eexists. split; [vm_compute; reflexivity|vm_compute; reflexivity]. Qed.
 Definition odd_fixed : list Z := asf_build [OExt (repeat 1 18) []] [7].
 Theorem C02_asf_fixed_part_refuted : exists f s f' s', asf_parse f = Ok s /\ asf_delete f = Ok f' /\ asf_parse f' = Ok s' /\
   foreign (sobjs s') <> foreign (sobjs s).
